@@ -327,6 +327,8 @@ def apply_rules(text, features=(), keep_unsafe=False):
     t = re.sub(r'\*mut\s+' + PTR_TYPES, r'&' + lts + r'mut \1', t)
     t = re.sub(r'unsafe\s*\{\s*&\s*\*\s*([a-z_]+)\s*\}', r'\1', t)
     t = re.sub(r'unsafe\s*\{\s*&mut\s*\*\s*([a-z_]+)\s*\}', r'\1', t)
+    # field projections through a converted pointer: unsafe { &(*p).f.g } -> &(*p).f.g (p is a reference now)
+    t = re.sub(r'unsafe\s*\{\s*(&(?:mut\s+)?\(\s*\*\s*[a-z_]+\s*\)(?:\s*\.\s*\w+)+)\s*\}', r'\1', t)
     t = re.sub(r'(&mut self(?:\.memory)?|self) as &mut MemoryAreas', lambda mm: mm.group(1), t)
     t = re.sub(r'(&self(?:\.memory)?|self) as &MemoryAreas', lambda mm: mm.group(1), t)
     t = re.sub(r'self\.memory\.as_ptr\(\)', '&self.memory', t)
